@@ -152,6 +152,9 @@ func backendProp(b backendSpec, meaning string) propFunc {
 			r.floor("parens.looseformat", 100)
 		}
 		if b.Name == "glsl" || b.Name == "hlsl" {
+			r.Clauses = append(r.Clauses, "continue forwarding (E57): where a continue may be rendered as `flag = true; break;`, every function that writes the case bodies of a switch enters the forwarding context and leaves it with exitSwitch, so the break is repeated after a nested switch")
+			c.runContinueForwardNest(r, "continue.forwardnest", inPkgs(b.Name))
+			r.floor("continue.forwardnest", 1)
 			r.Clauses = append(r.Clauses, "bit-scan polyfills (E33): where a string literal spells min(K, firstbitlow/findLSB(x)), K - firstbithigh/findMSB(x) or ((ctz(x)+1) % K) - 1, K is 32, 31 and 33 respectively (countTrailingZeros(0) = 32, countLeadingZeros = 31 - msb)")
 			c.runBitscanWidth(r, "bitscan.width", inPkgs(b.Name))
 			r.floor("bitscan.width", 2)
